@@ -75,7 +75,10 @@ def build_session(state, choice):
     allf = set().union(*state.values()) if state else set()
     mine = state.get(dname, set())
     others = allf - mine
-    if sk == "later":
+    if sk == "zero":
+        f0 = 0
+        start = 0
+    elif sk == "later":
         f0 = (max(allf) + 2) if allf else 10
         start = first_of_file(f0)
     elif sk == "next_free":
@@ -83,6 +86,8 @@ def build_session(state, choice):
         start = first_of_file(f0)
     elif sk == "earlier":
         f0 = min(allf) - 4
+        if f0 < 0:
+            return None
         start = first_of_file(f0)
     elif sk in ("gap", "gap_last"):
         free = [f for f in range(min(allf) + 1, max(allf)) if f not in allf]
@@ -134,6 +139,7 @@ def enumerate_histories(max_sessions):
             return
         if not prefix:
             menu = [("A", "later", wk) for wk in ("one_file", "cross", "two_periods", "two_periods_b")]
+            menu += [("A", "zero", wk) for wk in ("one_file", "cross")]  # the recording begins at index 0 of the epoch
         else:
             menu = session_menu(state, depth)
         for ch in menu:
@@ -367,7 +373,9 @@ def main(tier):
               "finalized file period then a later free period}) or one of 10 single-parameter mismatches; histories that "
               "would record one file period in two directories are pruned (the format forbids them). After every call the "
               "hashes of all previously finalized files are compared; at the end one reader over all directories is compared "
-              "with the union model. Storage modes: gapped and continuous.") % depth,
+              "with the union model (directories listed in every order, plus a directory whose channel has no data yet; a reader kept "
+              "open since the first session is asked after every session). First sessions also start at index 0 of the epoch. "
+              "Storage modes: gapped and continuous.") % depth,
         assumptions=["sign-only dtype changes are not stored with the channel and are not used as mismatches"],
     )
     stage.activate()
@@ -376,6 +384,8 @@ def main(tier):
         # depth 4 is large (226k sequences): keep every sequence of depth <= 3, and the depth-4 sequences that
         # start with a two-period first session and contain no parameter mismatch (those are covered at depth <= 3)
         hists = [h for h in hists if len(h) <= 3 or (h[0][2] in ("two_periods", "two_periods_b") and all(x[1] != "mismatch" for x in h))]
+    # recordings that begin at index 0 of the epoch: up to two sessions (quick) / three (thorough), without mismatches
+    hists = [h for h in hists if h[0][1] != "zero" or (len(h) <= (2 if tier == "quick" else 3) and all(x[1] != "mismatch" for x in h))]
     jobs = [(mode, h) for mode in ("gapped", "cont") for h in hists if len(h) <= 3 or mode == "gapped"]
     rot = core.seed() % max(1, len(jobs))
     jobs = jobs[rot:] + jobs[:rot]
